@@ -1,6 +1,7 @@
 import Uom.Model.Conv
 import Uom.Model.Oracle
 import Uom.Proofs.FlConvIdentity
+import Uom.Proofs.KernelFloat
 /-!
 # C03 — unit conversion on construction and read-back is numerically faithful (floats)
 
@@ -68,6 +69,43 @@ theorem coherent_unit_id (f : Fmt) (hf : f.WF) (n : Nat) (v : Fl) (hv : Fl.Canon
     fromBase (flS f) (Fl.one f) (Fl.zero f false) (baseFactor (flS f) (List.replicate n (Fl.one f))) v = v := by
   rw [baseFactor_ones f hf n]
   exact ⟨new_id f hf v _ hv rfl (one_not_zero f), get_id f hf v _ hv rfl (one_not_zero f)⟩
+
+/-- **Accuracy of construction.**  Whenever no overflow or underflow intervenes (`ToBaseOk`: operands
+    finite, every intermediate finite, every exact intermediate product/quotient at least the smallest
+    normal number), the stored value is `(v + c)·coef/f` — computed over the reals from the float
+    operands — up to three roundings: `stored = exact·θ` with `(1-u)³ ≤ θ ≤ (1-u)⁻³`, `u = 2^-p`.
+    This is a theorem about the soft-float model itself (no standard-model assumption left). -/
+theorem new_accuracy (f : Fmt) (hp : 1 ≤ f.p) (coef c fac v : Fl) (H : Proofs.ToBaseOk f coef c fac v) :
+    Proofs.Approx (Proofs.uro f) 3 (Fl.toRat (toBase (flS f) coef c fac v))
+      ((v.toRat + c.toRat) * coef.toRat / fac.toRat) :=
+  (Proofs.toBase_flS_approx hp H).1
+
+/-- **Accuracy of read-back** for a unit with offset `c`: the error is bounded by two roundings of the
+    scaled term `v·f/coef` plus one rounding of the result — "ulps at the larger of the result and the
+    offset term". -/
+theorem get_accuracy (f : Fmt) (hp : 1 ≤ f.p) (coef c fac v : Fl) (H : Proofs.FromBaseOk f coef fac v)
+    (hc : Proofs.Ok f c) (hfin : (fromBase (flS f) coef c fac v).isFinite = true) :
+    |Fl.toRat (fromBase (flS f) coef c fac v) - (v.toRat * fac.toRat / coef.toRat - c.toRat)| ≤
+      ((1 - Proofs.uro f) ^ (-2 : ℤ) - 1) * |v.toRat * fac.toRat / coef.toRat| * (1 + Proofs.uro f)
+        + Proofs.uro f * |v.toRat * fac.toRat / coef.toRat - c.toRat| :=
+  Proofs.fromBase_flS_abs_le hp H hc hfin
+
+/-- **Construct-then-read in one unit** (unit without offset) returns the input up to six roundings. -/
+theorem roundtrip_accuracy (f : Fmt) (hp : 1 ≤ f.p) (coef fac v : Fl)
+    (hcoef : coef.toRat ≠ 0) (hfac : fac.toRat ≠ 0)
+    (H1 : Proofs.ToBaseOk f coef (flS f).constAdd fac v)
+    (H2 : Proofs.FromBaseOk f coef fac (toBase (flS f) coef (flS f).constAdd fac v))
+    (hfin : Fl.isFinite (fromBase (flS f) coef (flS f).constSub fac
+      (toBase (flS f) coef (flS f).constAdd fac v)) = true) :
+    Proofs.Approx (Proofs.uro f) 6
+      (Fl.toRat (fromBase (flS f) coef (flS f).constSub fac (toBase (flS f) coef (flS f).constAdd fac v)))
+      v.toRat :=
+  Proofs.roundtrip_flS_approx hp hcoef hfac H1 H2 hfin
+
+/-- the closed form of `Approx`: `k` roundings mean a relative error of at most `(1-u)^-k − 1` -/
+theorem approx_closed_form (u : Rat) (k : ℕ) (xh x : Rat) (hu0 : 0 ≤ u) (hu1 : u < 1)
+    (h : Proofs.Approx u k xh x) : |xh - x| ≤ ((1 - u) ^ (-(k : ℤ)) - 1) * |x| :=
+  Proofs.Approx.abs_sub_le' hu0 hu1 h
 
 /-- both real formats satisfy the well-formedness hypothesis of the identity theorems -/
 theorem formats_wf : b64.WF ∧ b32.WF := ⟨b64_wf, b32_wf⟩
